@@ -18,7 +18,9 @@ THOROUGH_SECONDS = 600
 CASE_TIMEOUT = 900
 LEVEL = 'exploration'
 EXHAUSTIVE = False
-RULE = ('sweep (complete): input length 0..8 x initial x final x offset in {0, 5} x 11 input/output dtype pairings (incl. '
+RULE = ('sweep (long inputs): lengths 2^k-1, 2^k, 2^k+1 for k=10..20 (21 thorough) and four odd lengths x flags x 3 dtype '
+        'pairings x 1/3/16 numba threads (a third of the product, all of it at 65536/65537/2^20/2^20+1). '
+        'sweep (complete): input length 0..8 x initial x final x offset in {0, 5} x 11 input/output dtype pairings (incl. '
         'uint32->uint64, list input for lengths >= 1) x output length correct / one short / one long; seeded: lengths up to '
         '10^4, random values and offsets. Each case runs the compiled kernel on a poisoned arena with canaries under two '
         'fills; one batch per run repeats the sweep in a NUMBA_BOUNDSCHECK=1 child. non-trivial = every case (each is a '
@@ -54,6 +56,18 @@ def sweep(tier):
                         cases.append(_case(n, initial, final, 0, ('i8', 'i8'), 'array', delta))
     for c in cases:
         yield c
+    # long inputs (where a blocked / threaded fast path would live): lengths around every power of two up to 2^21 and a
+    # few odd ones, for each flag combination, three dtype pairings and 1, 3, 16 numba threads
+    longs = sorted({(1 << k) + d for k in range(10, 22) for d in (-1, 0, 1)} | {65537 + 64, 100003, 1000003, 3 * (1 << 19) + 5})
+    if tier != 'thorough':
+        longs = [n for n in longs if n <= (1 << 20) + 1 or n == 3 * (1 << 19) + 5]
+    for n in longs:
+        for initial in (False, True):
+            for final in (False, True):
+                for pair in (('i8', 'i8'), ('u4', 'u8'), ('f8', 'f8')):
+                    for T in (1, 3, 16):
+                        if (n + T + int(initial)) % 3 == 0 or n in (65536, 65537, 1 << 20, (1 << 20) + 1):
+                            yield dict(_case(n, initial, final, 5 if final else 0, pair), threads=T)
     # the same calls once more under numba's own bounds checking
     batch = [c for c in cases if c['delta'] == 0 and c['n'] - 1 + int(c['initial']) + int(c['final']) >= 0]
     yield {'bc_batch': batch[:len(batch) // 2]}
@@ -87,7 +101,16 @@ def kernel_call(case, arena):
     else:
         arr = arena.put(v) if case['container'] == 'array' else [int(x) for x in v]
         out = arena.alloc(n_out, odt, fill=77)
-    total = cumsum(arr, out, initial=case['initial'], final=case['final'], offset=case['offset'])
+    T = case.get('threads')
+    if T:
+        import numba
+        old = numba.get_num_threads()
+        numba.set_num_threads(min(T, numba.config.NUMBA_NUM_THREADS))
+    try:
+        total = cumsum(arr, out, initial=case['initial'], final=case['final'], offset=case['offset'])
+    finally:
+        if T:
+            numba.set_num_threads(old)
     return np.array(out, copy=True), np.asarray(total)
 
 
@@ -123,7 +146,7 @@ def run(case):
         out['nontrivial'] = ['bc-batch', len(res), case['bc_batch'][0]]
         return out
     n_expected_out = case['n'] - 1 + int(case['initial']) + int(case['final'])
-    ra, rb, da, db, exc = A.two_fills(lambda ar: kernel_call(case, ar), nbytes=1 << 18 if case['n'] < 2000 else 1 << 20)
+    ra, rb, da, db, exc = A.two_fills(lambda ar: kernel_call(case, ar), nbytes=1 << 18 if case['n'] < 2000 else max(1 << 20, 20 * case['n'] + (1 << 16)))
     bump(out['faults'], 'arena-two-fills')
     if n_expected_out + case['delta'] < 0 and case['delta'] != 0:
         case = dict(case, delta=0)      # a negative length cannot be constructed
@@ -159,6 +182,10 @@ def run(case):
         bump(out['probes'], 'single-element')
     if case['container'] == 'list':
         bump(out['probes'], 'list-input')
+    if case['n'] >= 65536:
+        bump(out['probes'], 'long-input')
+    if case.get('threads'):
+        bump(out['faults'], 'numba-threads=%d' % case['threads'])
     out['events'].append(['ok', case['n'], case['initial'], case['final'], case['in'], case['out']])
     out['steps'] = 2
     out['nontrivial'] = [case['n'], case['initial'], case['final'], case['offset'], case['in'], case['out'],
